@@ -222,6 +222,7 @@ def extra_obligations(mods, tier, seed):
         out.append({"name": f"C15/arms/{name}", "status": "discharged" if ok else "sat", "backend": "enum", "bounded": True, "where": where,
                     "time": round(time.time() - t0, 3), "replay": {"source": src, "loop": loop[:600]}, "replay_confirmed": not ok})
     out += declared_pin_obligations()
+    out += two_sensor_obligations()
     return out
 
 
@@ -290,6 +291,45 @@ def _pin_one(job):
         k = next((i for i, (a, b) in enumerate(zip(fw, host)) if a != b), min(len(fw), len(host)))
         return name, "differs", {"read_number": k, "firmware_reads": fw[k:k + 3], "python_reads": host[k:k + 3], "counts": [len(fw), len(host)]}, body
     return name, "same", None, body
+
+
+def two_sensor_obligations():
+    """two ultrasonic sensors in one sketch: the fallback after three silent attempts is the last good reading OF THAT SENSOR, or 400 cm
+    when that sensor never produced one (scripted echo durations, values printed over serial; expected values computed here from the
+    property's formula duration * 0.0343 / 2)"""
+    from progs.diff import transpile
+    from fwsim.run import run_sketch
+    t0 = time.time()
+    head = "from Reduino.Sensors import Ultrasonic\nfrom Reduino.Communication import SerialMonitor\nfrom Reduino.Utils import sleep\n"
+    body = ("mon = SerialMonitor(9600)\nfront = Ultrasonic(7, 8)\nrear = Ultrasonic(4, 5)\nwhile True:\n    f = front.measure_distance()\n    r = rear.measure_distance()\n"
+            "    mon.write(f)\n    mon.write(r)\n    sleep(100)\n")
+    # pass 1: front hears 1000 us, rear hears nothing (3 attempts); pass 2: front hears nothing (3), rear hears 2000 us; pass 3: both silent
+    CASES = {"rear-never-heard-then-heard": ("1000,0,0,0,0,0,0,2000,0,0,0,0,0,0", [17.15, 400.0, 17.15, 34.3, 17.15, 34.3]),
+             "front-silent-from-the-start": ("0,0,0,3000,0,0,0,0,0,0", [400.0, 51.45, 400.0, 51.45])}
+    out = []
+    for name, (pulses, want) in CASES.items():
+        prob = None
+        cpp, err = transpile(head + body)
+        if cpp is None:
+            prob = "rejected: " + str(err)
+        else:
+            r = run_sketch(cpp, passes=len(want) // 2, env={"FWSIM_PULSE": pulses})
+            if not r.get("compiled"):
+                prob = "does not compile: " + r.get("errors", "")[-200:]
+            else:
+                got = []
+                for e in r["events"]:
+                    if e.startswith("S:"):
+                        try:
+                            got.append(float(e[2:]))
+                        except ValueError:
+                            pass
+                if len(got) < len(want) or any(abs(a - b) > 0.02 for a, b in zip(got, want)):
+                    prob = f"echo durations {pulses} (front asks first, three attempts each): printed distances {got[:len(want)]}, the property gives {want}"
+        out.append({"name": f"C15/exec/two-sensors/{name}", "status": "discharged" if not prob else "sat", "backend": "enum+fwsim", "bounded": True,
+                    "where": f"two ultrasonic sensors, scripted echoes '{pulses}': each sensor falls back to ITS last good reading, or to 400 cm when it never had one",
+                    "time": round(time.time() - t0, 2), "replay": {"script": head + body, "FWSIM_PULSE": pulses, "problem": prob}, "replay_confirmed": bool(prob)})
+    return out
 
 
 def declared_pin_obligations():
